@@ -66,14 +66,15 @@ Record hst := HS {
   h_subOpen : bool;            (* the subscription's message channel is open *)
   h_subs : nat;                (* successful Subscribe calls for this handler (ghost) *)
   h_inflight : nat;            (* messages received by the loop whose handleMessage has not finished *)
+  h_mid : bool;                (* ghost: Subscribe returned, h.started not yet set *)
   h_loop : lpc;
   h_hc : cpc
 }.
 #[export] Instance eta_hst : Settable _ := settable! HS
   <h_pub; h_hon; h_par; h_inmap; h_started; h_startedCh; h_stopFn; h_stoppedSet; h_stoppedCh;
-   h_cancel; h_subOpen; h_subs; h_inflight; h_loop; h_hc>.
+   h_cancel; h_subOpen; h_subs; h_inflight; h_mid; h_loop; h_hc>.
 
-Definition h0 : hst := HS None false PRun false false false false false false false false 0 0 LNone CNone.
+Definition h0 : hst := HS None false PRun false false false false false false false false 0 0 false LNone CNone.
 
 Inductive owner := OMain | OThr (t : tid) | OWatch.
 
@@ -238,7 +239,7 @@ Definition rh_step (s : rstate) (me : owner) (par : parent) (p : rhpc) (c : choi
       let x := hs s h in
       if Nat.ltb h (nexth s) && h_inmap x && negb (h_started x) then
         if ok then
-          let x1 := x <| h_par := par |> <| h_subOpen := true |> <| h_subs := S (h_subs x) |> in
+          let x1 := x <| h_par := par |> <| h_subOpen := true |> <| h_subs := S (h_subs x) |> <| h_mid := true |> in
           let x2 := if fix4 s then x1 <| h_stopFn := true |> <| h_stoppedSet := true |> else x1 in
           Some (set_h s h x2, HMid1 h, [ASubscribe h true])
         else Some (s, HFail, [ASubscribe h false])
@@ -246,7 +247,7 @@ Definition rh_step (s : rstate) (me : owner) (par : parent) (p : rhpc) (c : choi
   | HLoop, CStep =>
       if all_started s then Some (s <| hlock := None |>, HRet true, []) else None
   | HMid1 h, CStep =>
-      Some (set_h s h (hs s h <| h_started := true |> <| h_startedCh := true |>), HMid2 h, [])
+      Some (set_h s h (hs s h <| h_started := true |> <| h_startedCh := true |> <| h_mid := false |>), HMid2 h, [])
   | HMid2 h, CStep =>
       let x := hs s h in
       let x1 := if fix4 s then x else x <| h_stopFn := true |> <| h_stoppedSet := true |> in
